@@ -1670,6 +1670,35 @@ func isBatchPtr(t types.Type) bool {
 	return ok && ssau.IsNamed(p.Elem(), load.AstikitPath, "BitsWriterBatch")
 }
 
+// batchParamWriter: id names a *BitsWriterBatch parameter of the function being summarised and that function has exactly one
+// *BitsWriter parameter: the object of that parameter.
+func (st *State) batchParamWriter(id string) *Obj {
+	fn := st.Fn
+	if fn == nil {
+		return nil
+	}
+	var wp *ssa.Parameter
+	isParam := false
+	for _, p := range fn.Params {
+		if "$"+p.Name() == id && isBatchPtr(p.Type()) {
+			isParam = true
+		}
+		if isWriterPtr(p.Type()) {
+			if wp != nil {
+				return nil
+			}
+			wp = p
+		}
+	}
+	if !isParam || wp == nil {
+		return nil
+	}
+	if v, ok := st.vals[wp]; ok && v.K == KPtr && v.O != nil {
+		return v.O
+	}
+	return nil
+}
+
 // Bits returns the number of bits emitted so far to the writer object on this path.
 func (st *State) Bits(w *Obj) lin.Form {
 	k := w.ID + ".#bits"
@@ -1725,6 +1754,12 @@ func (st *State) writerCall(x *ssa.Call, name string, args []Val, resName string
 		if args[0].K == KPtr && args[0].O != nil {
 			if wv, ok := st.mem[joinPath(args[0].O.ID, joinPath(args[0].Sym, "w"))]; ok && wv.K == KPtr {
 				w = wv.O
+			} else if strings.HasPrefix(args[0].O.ID, "$") && args[0].Sym == "" {
+				// a batch handed in by the caller: it wraps the function's own *BitsWriter parameter. That every caller passes a
+				// batch created over the very writer it passes is a structural obligation of its own (layout: batch-param).
+				if pw := st.batchParamWriter(args[0].O.ID); pw != nil {
+					w = pw
+				}
 			}
 		}
 	default:
